@@ -33,6 +33,9 @@ def run(ctx):
     ctx.run_rule("K4c", r_round.rule_K4_c)
     ctx.run_rule("K5c", r_round.rule_K5_c)
     ctx.run_rule("R1cv", r_round.rule_R1_cvec)
+    ctx.run_rule("TPc", r_round.rule_TP_c)
+    ctx.run_rule("XNc", r_round.rule_XN_c)
+    ctx.run_rule("HNc", r_round.rule_HN_c)
     ctx.run_rule("F8c", r_round.rule_F8_c)
     ctx.run_rule("STc", r_round.rule_ST_c)
     import r_cbudget
